@@ -11,7 +11,7 @@ use super::common::{
     safe_ident, Arity, Codegen, CodegenRule, CodegenSettings, FieldDescriptor, PublicType,
     RecordPosition,
 };
-use crate::grammar::{DirectiveExpression, Grammar, Rule};
+use crate::grammar::{DirectiveExpression, Grammar, Grammar_rules, Rule};
 
 impl CodegenRule for Rule {
     fn generate_code(
@@ -28,6 +28,7 @@ impl CodegenRule for Rule {
         let fields = self.definition.get_fields(grammar)?;
 
         self.check_flags(&flags, &settings)?;
+        self.check_position_variants(&flags, &fields, grammar)?;
 
         let name = &self.name;
         let rule_mod = self.rule_module_ident();
@@ -106,6 +107,31 @@ impl Rule {
         }
         if (flags.memoize || flags.left_recursive) && !settings.derives.contains(&"Clone".into()) {
             bail!("@memoize and @leftrec can only be used if 'Clone' is in the derives set");
+        }
+        Ok(())
+    }
+
+    /// An enum rule marked @position delegates to the position of the parsed variant
+    fn check_position_variants(
+        &self,
+        flags: &RuleFlags,
+        fields: &[FieldDescriptor],
+        grammar: &Grammar,
+    ) -> Result<()> {
+        if flags.position
+            && !flags.string
+            && fields.len() == 1
+            && fields[0].name == "_override"
+            && fields[0].types.len() > 1
+        {
+            for type_name in fields[0].types.keys() {
+                let has_position = grammar.rules.iter().any(|r| {
+                    matches!(r, Grammar_rules::Rule(r) if r.name == *type_name && r.flags().position)
+                });
+                if !has_position {
+                    bail!("All variants of a @position enum rule have to be marked with @position ({type_name} is not)");
+                }
+            }
         }
         Ok(())
     }
